@@ -1,84 +1,156 @@
-//! C02 probe (temporary first version): record one history and dump the canonical stream.
+//! C02 — process-crash atomicity.
+//!
+//! One history (create / put / update / delete / commit / vacuum / batch pre-size / commit_skip_indexes /
+//! finalize_indexes / clean reopen) runs in a child process under `strace`; the recorded syscall stream
+//! on the memory's directory is replayed on an in-memory file system; for EVERY prefix (process-crash
+//! model: completed syscalls persist) the surviving `m.mv2` is written to a scratch directory and the
+//! real `Memvid::open` is run on it in another child.  Oracle (independent of the Lean model): the
+//! reopened memory shows every operation acknowledged before the crash point, optionally the
+//! in-flight one, nothing else; active frames' contents byte-identical; search finds them.
+//! Model (drv_c02): tie #1 — the canonicalised stream of each API step equals `emit` of the model;
+//! tie #2 — the real observation at each crash point equals `recover` of the model image.
 #[path = "../crashlib.rs"]
 mod crashlib;
 use crashlib::*;
+use mvh::*;
 
-fn main() {
-    if child_main() {
-        return;
-    }
-    let argv: Vec<String> = std::env::args().collect();
-    if argv.get(1).map(|s| s.as_str()) == Some("parse") {
-        let text = String::from_utf8_lossy(&std::fs::read(&argv[2]).unwrap()).to_string();
-        let (ops, warnings, raw) = parse_strace(&text, std::path::Path::new(&argv[3]), FsSim::default());
-        println!("ops={} raw={} warnings={:?}", ops.len(), raw, warnings);
-        let mut sim = FsSim::default();
-        for (i, s) in ops.iter().enumerate() {
-            sim.apply(s);
-            println!("{i}: {}", s.brief());
-            if let Sys::Mark(m) = s {
-                if m.starts_with("hash ") {
-                    let h = sim.file(FILE_NAME).map(b3hex).unwrap_or_default();
-                    println!("   selfcheck sim={h} {}", if m.contains(&h) { "OK" } else { "MISMATCH" });
-                }
-            }
-        }
-        return;
-    }
-    if argv.get(1).map(|s| s.as_str()) == Some("probe") {
-        let exe = std::env::current_exe().unwrap();
-        let scratch = scratch_dir("probe");
-        let dir = scratch.join("mem");
-        std::fs::create_dir_all(&dir).unwrap();
-        let ops = vec![
+fn corpus() -> Vec<(&'static str, Vec<HOp>)> {
+    vec![
+        ("staged-commit-and-plain-put", vec![
             HOp::Put { kind: 0, len: 200, seed: 1 },
             HOp::Put { kind: 1, len: 300, seed: 2 },
             HOp::Commit,
             HOp::Put { kind: 0, len: 100, seed: 3 },
             HOp::Delete { id: 0 },
-            HOp::Reopen,
-            HOp::Update { id: 1, kind: 0, len: 120, seed: 4 },
+            HOp::Put { kind: 0, len: 150, seed: 4 },
+        ]),
+        ("wal-wrap", vec![
+            HOp::Put { kind: 1, len: 20_000, seed: 11 },
+            HOp::Put { kind: 1, len: 20_000, seed: 12 },
+            HOp::Put { kind: 1, len: 20_000, seed: 13 },
+            HOp::Put { kind: 1, len: 21_000, seed: 14 },
             HOp::Commit,
-        ];
-        let path = dir.join(FILE_NAME);
-        let t0 = std::time::Instant::now();
-        let rec = record(&exe, &["child-run".into(), path.to_string_lossy().to_string(), serde_json::to_string(&ops).unwrap()], &dir, FsSim::default(), &scratch).unwrap();
-        println!("recorded in {:?}: exit_ok={} log={}B lines={} ops={} warnings={:?}", t0.elapsed(), rec.exit_ok, rec.log_bytes, rec.raw_lines, rec.ops.len(), rec.warnings);
-        println!("stdout: {}", rec.stdout);
-        let spans = step_spans(&rec.ops);
-        let mut sim = rec.initial.clone();
-        let mut pos = 0;
-        for sp in &spans {
-            while pos < sp.begin { sim.apply(&rec.ops[pos]); pos += 1; }
-            let c = canon_step(&rec.ops, sp.begin, sp.end, &sim, FILE_NAME);
-            let r: Vec<String> = rle(&c).into_iter().map(|(t, n)| if n > 1 { format!("{t}*{n}") } else { t }).collect();
-            println!("step {} {} ok={} [{}..{}]: {}", sp.index, sp.name, sp.ok, sp.begin, sp.end, r.join(" "));
-        }
-        // self-check: simulated file vs hashes reported by the child
-        let mut sim = rec.initial.clone();
-        let marks = hash_marks(&rec.ops);
-        let mut mi = 0;
-        for (i, s) in rec.ops.iter().enumerate() {
-            sim.apply(s);
-            if mi < marks.len() && marks[mi].0 == i {
-                let h = sim.file(FILE_NAME).map(b3hex).unwrap_or_default();
-                println!("selfcheck at {i}: sim={h} real={} len={} {}", marks[mi].1, marks[mi].2, if h == marks[mi].1 { "OK" } else { "MISMATCH" });
-                mi += 1;
-            }
-        }
-        println!("final names: {:?}", sim.names());
-        let real = std::fs::read(&path).unwrap();
-        println!("final real hash {} sim {}", b3hex(&real), sim.file(FILE_NAME).map(b3hex).unwrap_or_default());
-        if let Some(simf) = sim.file(FILE_NAME) {
-            if simf != &real[..] {
-                let n = simf.len().min(real.len());
-                let diffs: Vec<usize> = (0..n).filter(|i| simf[*i] != real[*i]).collect();
-                println!("sim len {} real len {} differing bytes {} first {:?} last {:?}", simf.len(), real.len(), diffs.len(), diffs.first(), diffs.last());
-                std::fs::write("/tmp/crash-sim.bin", simf).unwrap();
-                std::fs::write("/tmp/crash-real.bin", &real).unwrap();
-                for (i, s) in rec.ops.iter().enumerate().skip(154) { println!("{i}: {}", s.brief()); }
-            }
-        }
-        let _ = std::fs::remove_dir_all(&scratch);
+        ]),
+        ("wal-growth", vec![
+            HOp::Put { kind: 0, len: 300, seed: 21 },
+            HOp::Commit,
+            HOp::Put { kind: 1, len: 70_000, seed: 22 },
+            HOp::Commit,
+        ]),
+        ("update-and-reopen", vec![
+            HOp::Put { kind: 0, len: 120, seed: 31 },
+            HOp::Commit,
+            HOp::Update { id: 0, kind: 0, len: 140, seed: 32 },
+            HOp::Reopen,
+            HOp::Put { kind: 0, len: 90, seed: 33 },
+        ]),
+        ("vacuum", vec![
+            HOp::Put { kind: 0, len: 200, seed: 41 },
+            HOp::Put { kind: 0, len: 220, seed: 42 },
+            HOp::Commit,
+            HOp::Delete { id: 0 },
+            HOp::Vacuum,
+        ]),
+        ("batch-presize-and-skip-indexes", vec![
+            HOp::Put { kind: 0, len: 200, seed: 51 },
+            HOp::Commit,
+            HOp::BatchBegin { presize: 100_000 },
+            HOp::Put { kind: 0, len: 210, seed: 52 },
+            HOp::BatchEnd,
+            HOp::CommitSkipIndexes,
+            HOp::FinalizeIndexes,
+        ]),
+    ]
+}
+
+fn main() {
+    if child_main() {
+        return;
     }
+    if std::env::args().nth(1).as_deref() == Some("probe-wal") {
+        let d = scratch_dir("pw");
+        let p = d.join("x.mv2");
+        let mut m = memvid_core::Memvid::create(&p).unwrap();
+        let len: usize = std::env::args().nth(2).and_then(|x| x.parse().ok()).unwrap_or(2000);
+        for i in 0..40u64 {
+            let mut o = memvid_core::PutOptions::default();
+            o.auto_tag = false; o.extract_dates = false; o.extract_triplets = false;
+            let r = m.put_bytes_with_options(&payload(1, len, 100 + i), o);
+            let st = memvid_core::verif_hooks::verif_state(&m);
+            println!("put {i}: {:?} wh={} pend={} walsize={} frames={}", r.is_ok(), st.wal_write_head, st.wal_pending_bytes, st.hdr_wal_size, m.frame_count());
+        }
+        drop(m);
+        let _ = std::fs::remove_dir_all(&d);
+        return;
+    }
+    let args = parse_args();
+    let exe = std::env::current_exe().unwrap();
+    let mut sum = Summary::new("C02", &args, "one evaluation = one process-crash point (prefix of the recorded syscall stream) of one history: surviving m.mv2 reopened by the real Memvid::open and judged against the acknowledged-operations reference; distinct_nontrivial = distinct surviving images");
+    let known: Vec<String> = args.extra.get("known").map(|s| s.split(',').map(|x| x.to_string()).collect()).unwrap_or_default();
+    let scratch = scratch_dir("c02");
+    let verbose = args.extra.contains_key("verbose");
+    let only = args.extra.get("only").cloned();
+
+    let mut histories: Vec<(String, Vec<HOp>)> = vec![];
+    if args.mode == "replay" {
+        let case = load_replay(args.replay_file.as_ref().expect("replay file"));
+        let input = case.get("input").cloned().unwrap_or(case.clone());
+        let h: Vec<HOp> = serde_json::from_value(input["history"].clone()).expect("history");
+        histories.push(("replay".into(), h));
+    } else {
+        for (n, h) in corpus() {
+            if only.as_deref().map(|o| o == n).unwrap_or(true) { histories.push((n.to_string(), h)); }
+        }
+    }
+
+    for (name, history) in &histories {
+        let t0 = std::time::Instant::now();
+        let rec = match record_history(&exe, &scratch, history) {
+            Ok(r) => r,
+            Err(e) => {
+                sum.disagreement("recorder failed (strace parse / simulated file system self-check)", json!({"history": history, "name": name}), "-", &e);
+                continue;
+            }
+        };
+        let t_rec = t0.elapsed();
+        let spans = step_spans(&rec.ops);
+        if verbose {
+            let mut sim = rec.initial.clone();
+            let mut pos = 0;
+            for sp in &spans {
+                while pos < sp.begin { sim.apply(&rec.ops[pos]); pos += 1; }
+                let c = canon_step(&rec.ops, sp.begin, sp.end, &sim, FILE_NAME);
+                let r: Vec<String> = rle(&c).into_iter().map(|(t, n)| if n > 1 { format!("{t}*{n}") } else { t }).collect();
+                println!("  step {} {} ok={} {}: {}", sp.index, sp.name, sp.ok, sp.err, r.join(" "));
+            }
+        }
+        let ev = eval_process_crashes(&exe, &scratch, history, &rec, false);
+        let t_all = t0.elapsed();
+        let mut bad = 0;
+        let mut seen_sig: std::collections::BTreeSet<String> = Default::default();
+        for p in &ev.points {
+            sum.branch(&format!("crash-in-{}", p.inflight));
+            let canon = format!("{name}/{}", p.image);
+            let o = &ev.obs[p.image].first;
+            sum.case(&canon, true, || json!({"history": name, "k": p.k, "inflight": p.inflight, "obs": o.logical()}));
+            if !p.verdict.ok {
+                bad += 1;
+                let case = json!({"history": history, "name": name, "crash_prefix": p.k, "inflight": p.inflight,
+                                  "last_syscall": rec.ops[p.k - 1].brief(), "observation": o.logical()});
+                let first = seen_sig.insert(p.verdict.signature.clone());
+                if verbose && first { println!("  FAIL k={} {} :: {} :: {}", p.k, rec.ops[p.k - 1].brief(), p.verdict.signature, p.verdict.what); }
+                if known.contains(&p.verdict.signature) {
+                    sum.known_finding(&p.verdict.signature, &p.verdict.what, case);
+                } else if first {
+                    sum.oracle_violation(&p.verdict.signature, &p.verdict.what, case);
+                }
+            } else {
+                sum.branch(&format!("matched-{}", p.verdict.matched));
+            }
+        }
+        println!("history {name}: ops={} crash_points={} distinct_images={} failing_points={} record={:.1}s total={:.1}s",
+            rec.ops.len(), ev.points.len(), ev.images.len(), bad, t_rec.as_secs_f64(), t_all.as_secs_f64());
+    }
+    let _ = std::fs::remove_dir_all(&scratch);
+    sum.finish(&args);
 }
